@@ -1,6 +1,7 @@
 package main
 
 import (
+	"regexp"
 	"os/exec"
 	"strings"
 	"fmt"
@@ -43,6 +44,16 @@ func cmdCheck(prop, tier string, keep bool) int {
 		case "finding-not-reproduced":
 			fmt.Printf("NOTE: known finding for %s no longer reproduces inside its region\n", r.Name)
 		case "discharged", "covered", "cover-undecided":
+		case "undecidable":
+			reason := ""
+			if r.Failing != nil {
+				reason = r.Failing.Undecidable
+				if reason == "" {
+					reason = "depends on " + r.Failing.Tainted
+				}
+			}
+			undecided = append(undecided, r.Name)
+			fmt.Printf("UNDECIDED %s (%s)\n", r.Name, reason)
 		case "never-covered":
 			neverCovered = append(neverCovered, r.Name)
 			fmt.Printf("WEAK-CLAUSE %s: no execution path can satisfy the hypothesis of this postcondition (it states nothing); not a violation\n", r.Name)
@@ -85,8 +96,13 @@ func cmdCheck(prop, tier string, keep bool) int {
 	// The callers are verified with whatever code replaced the call, so this is reported as
 	// UNDECIDED, not as a violation. Exported functions and closures stay strict.
 	removedHelper := func(fn string) bool {
-		if _, ok := p.fns[fn]; ok || strings.Contains(fn, "$") || isAssumedContract(p, fn) {
+		if _, ok := p.fns[fn]; ok || isAssumedContract(p, fn) {
 			return false
+		}
+		if k := strings.Index(fn, "$"); k >= 0 {
+			// a closure (or bound-method wrapper) that no longer exists: closures are never part of
+			// the exported API; whether they exist is a matter of code structure
+			return true
 		}
 		i := strings.LastIndex(fn, ".")
 		if i < 0 || i+1 >= len(fn) {
@@ -97,7 +113,7 @@ func cmdCheck(prop, tier string, keep bool) int {
 	}
 	lenient := func(obl string) bool {
 		owner := obl
-		if i := strings.Index(obl, "/"); i >= 0 {
+		if i := oblSep(obl); i >= 0 {
 			owner = obl[:i]
 			rest := obl[i+1:]
 			if strings.HasPrefix(rest, "pre:") || strings.HasPrefix(rest, "owns:callee_requires_lock:") {
@@ -140,7 +156,7 @@ func cmdCheck(prop, tier string, keep bool) int {
 	for _, n := range baselineNames {
 		if !seen[n] {
 			owner := n
-			if k := strings.Index(n, "/"); k >= 0 {
+			if k := oblSep(n); k >= 0 {
 				owner = n[:k]
 			}
 			if undecidedFuncs[owner] {
@@ -181,7 +197,20 @@ func cmdCheck(prop, tier string, keep bool) int {
 				canaryOK = true
 			}
 		}
-		extra["bounded_checks"] = map[string]interface{}{"model_validation": rep, "canary_detected": canaryOK}
+		// executor conformance on this property's constructible methods (bounded; reported, never
+		// counted as proof and never changes the exit status: real runs involve math/rand)
+		conf := runConform(p, "", pr.Funcs)
+		cpaths, ccons, cbad := 0, 0, 0
+		for _, c := range conf {
+			cpaths += c.Replayed
+			ccons += c.Consistent
+			cbad += len(c.Inconsistent)
+			for _, s := range c.Inconsistent {
+				fmt.Printf("CONFORMANCE-NOTE %s %s: the real run is not admitted by any symbolic return path: %s\n", prop, c.Func, truncate(s, 300))
+			}
+		}
+		fmt.Printf("%s: executor conformance (bounded, not proof): %d symbolic return paths replayed on the real code, %d consistent, %d inconsistent\n", prop, cpaths, ccons, cbad)
+		extra["bounded_checks"] = map[string]interface{}{"model_validation": rep, "canary_detected": canaryOK, "executor_conformance": conf}
 		fmt.Printf("%s: model validation (bounded, not proof): %d operator cases agree with Go, %d skipped as inexact/overflow (A1/A2), axiom instances %v, canary detected=%v\n",
 			prop, rep.Cases-len(rep.Failures), rep.Skipped, rep.Axioms, canaryOK)
 		if rep.Error != "" || len(rep.Failures) > 0 || !canaryOK {
@@ -375,4 +404,17 @@ func newFunctionIn(reason string) string {
 		}
 	}
 	return name
+}
+
+
+var oblSepRe = regexp.MustCompile(`/(ensures|inv|pre|frame|owns|safety|loop_init|loop_step|refines|refines_pre|implements|relational|rely|vacuity|cover|finding|table|lemma|dyntype|conform|supported|exists):?`)
+
+// oblSep: index of the "/" that separates the function name from kind:label in an obligation name
+// (package paths contain slashes too).
+func oblSep(name string) int {
+	loc := oblSepRe.FindStringIndex(name)
+	if loc == nil {
+		return -1
+	}
+	return loc[0]
 }
